@@ -22,8 +22,8 @@ RULE = (
     "scenario = word over {ok, fail, slow_ok (2.5 s), slow_fail} of length 1..L for the first attempts (later attempts succeed and stay up) x lifetime mode {stays up, lost after 3 s / 7 s alternating}; "
     "baseline run without close(), then one run per (iteration k of the baseline, position) with close() injected there: position first / last (quick) or every index of the ready queue (thorough), and one run per gap between consecutive event times with close() at the midpoint (inside back-off sleeps, slow attempts, idle connections). "
     "L = 4 quick, 5 thorough. plus reconnect-storm runs of 50 and 3000 cycles for the task bound. trace oracles: I1 <= 1 live connection; I2 no attempt while a connection is live or another attempt pending; "
-    "I3 every failure/loss followed by an attempt within max(back-off, breaker sleep)+0.01 s while not closed; I4 pending tasks <= 10 and equal for 50 and 3000 cycles; "
-    "I5 after close(): connect_loop returns at the same virtual time within 50 iterations, no attempt_start afterwards during 200 virtual seconds, every obtained transport closed or lost. "
+    "I3 every failure/loss followed by an attempt within max(back-off, breaker sleep)+0.25 s while not closed; I4 pending tasks <= 10 and equal for 50 and 3000 cycles; "
+    "I5 after close(): connect_loop returns at the same virtual time (+0.25 s slack) within 50 iterations, no attempt_start afterwards during 200 virtual seconds, every obtained transport closed or lost. "
     "evaluations = runs; distinct non-trivial = distinct (scenario, injection iteration, position) triples with close() landing while the manager was active (all injected runs)."
 )
 ASSUMPTIONS = [
@@ -33,6 +33,7 @@ ASSUMPTIONS = [
 ]
 WATCHDOG_S = {"quick": 900, "thorough": 7200}
 EPS = 0.01
+SLACK = 0.25  # scheduling slack granted to 'within' / 'at the same time' bounds (an implementation may poll)
 AFTER = 200.0
 
 
@@ -74,7 +75,7 @@ def judge(res, ctx, case, closed: bool) -> str | None:
     last_t = 0.0
     for e in ev:
         t, it, kind = e[0], e[1], e[2]
-        if waiting is not None and t > waiting[2] + EPS and t_close is None and kind != "horizon":
+        if waiting is not None and t > waiting[2] + SLACK and t_close is None and kind != "horizon":
             ctx.violation(f"C17:no-reconnect-after-{waiting[0]}", f"{waiting[0]} at t={waiting[1]}: no attempt until t={t} (deadline {waiting[2]})", case)
             waiting = None
         if kind == "attempt_start":
@@ -119,7 +120,7 @@ def judge(res, ctx, case, closed: bool) -> str | None:
         elif kind == "loop_returned":
             returned = (t, it)
         elif kind == "horizon":
-            if waiting is not None and t_close is None and t > waiting[2] + EPS:
+            if waiting is not None and t_close is None and t > waiting[2] + SLACK:
                 ctx.violation(f"C17:no-reconnect-after-{waiting[0]}", f"{waiting[0]} at t={waiting[1]}: no attempt until the horizon t={t}", case)
         if kind not in ("horizon", "close_called", "loop_returned", "loop_cancelled_by_harness"):
             last_t = t
@@ -127,7 +128,7 @@ def judge(res, ctx, case, closed: bool) -> str | None:
         if returned is None:
             ctx.violation("C17:close:loop-not-returned", f"close() at t={t_close}: connect_loop() had not returned {AFTER} virtual seconds later", case)
         else:
-            if returned[0] > t_close + EPS:
+            if returned[0] > t_close + SLACK:
                 ctx.violation("C17:close:loop-returned-late", f"close() at t={t_close} ({park}): connect_loop() returned at t={returned[0]} (waited out a back-off or pending attempt)", case)
             elif returned[1] - it_close > 50:
                 ctx.violation("C17:close:loop-returned-late", f"close() at iteration {it_close}: connect_loop() returned {returned[1] - it_close} iterations later", case)
